@@ -229,7 +229,13 @@ def handleStb (j : Json) : R Json := do
       | .error (.unsupported w), _ | _, .error (.unsupported w) => pure (.error s!"unsupported: {w}", none)
       | .ok gi, .ok go =>
         match lowerId gi go with
-        | .ok s => pure (.ok (s.prog, s.reg), some (Einx.Lower.inTheoremDomain gi go, Einx.Lower.theoremInstance gi go))
+        | .ok s =>
+          -- the instance of `lower_id_correct` is a symbolic run over every element: computed unless the request opts out
+          -- (size variants of a description whose base assignment has already been checked)
+          let want := match fldOpt j "instance" with
+            | some (Json.bool false) => false
+            | _ => true
+          pure (.ok (s.prog, s.reg), some (Einx.Lower.inTheoremDomain gi go, if want then Einx.Lower.theoremInstance gi go else true))
         | .error e => pure (.error e, none)
     | _, _ => pure ((.error "unsupported: more than one input or output" : Except String (List Einx.IR.Instr × Nat)), none))
   let tj := match thm with
